@@ -5,6 +5,7 @@ import (
 	"bufio"
 	"bytes"
 	"context"
+	"errors"
 	"fmt"
 	"io"
 	"math/rand"
@@ -31,11 +32,18 @@ type DCfg struct {
 	Host      string
 	RBuf      int
 	WBuf      int
+	// Callbacks: 0 none; 1 OnHeader (accepting) and OnStatusError recording what they are given;
+	// 2 OnHeader vetoing the first header it is shown
+	Callbacks int
 }
 
 func (d DCfg) String() string {
-	return fmt.Sprintf("protocols=%v exts=%v header=%s host=%q rbuf=%d wbuf=%d", d.Protocols, d.Exts, d.Header, d.Host, d.RBuf, d.WBuf)
+	return fmt.Sprintf("protocols=%v exts=%v header=%s host=%q rbuf=%d wbuf=%d callbacks=%d", d.Protocols, d.Exts, d.Header, d.Host, d.RBuf, d.WBuf, d.Callbacks)
 }
+
+var errVeto = errors.New("monitor: header vetoed by the application")
+
+var technical = map[string]bool{"upgrade": true, "connection": true, "sec-websocket-accept": true, "sec-websocket-protocol": true, "sec-websocket-extensions": true}
 
 var (
 	protoLists = [][]string{nil, {"chat"}, {"chat", "superchat"}, {"json", "mqtt", "chat.v2"}}
@@ -259,6 +267,18 @@ func exchange(c *mon.C, cfg DCfg, ustr string, choice map[string]string, trailK 
 		return true
 	}
 	d := buildDialer(cfg)
+	var hdrSeen [][2]string
+	var statusSeen []int
+	if cfg.Callbacks > 0 {
+		d.OnHeader = func(k, v []byte) error {
+			hdrSeen = append(hdrSeen, [2]string{string(k), string(v)})
+			if cfg.Callbacks == 2 {
+				return errVeto
+			}
+			return nil
+		}
+		d.OnStatusError = func(status int, reason []byte, r io.Reader) { statusSeen = append(statusSeen, status) }
+	}
 	tr := trailing(c, cfg.RBuf, trailK)
 	var resp *gen.Resp
 	var info gen.ReqInfo
@@ -345,6 +365,51 @@ func exchange(c *mon.C, cfg DCfg, ustr string, choice map[string]string, trailK 
 		if u.Scheme == "ws" && tlsHost != "" {
 			c.Fail("dial/tls-on-ws", "TLSClient invoked for a ws:// URL", det)
 			return false
+		}
+	}
+	// the application's callbacks: OnStatusError only for a refused status, OnHeader for the
+	// non-technical headers only, in order, and its veto is the dial's error
+	if cfg.Callbacks > 0 {
+		det["on_header_calls"], det["on_status_error_calls"] = fmt.Sprint(hdrSeen), fmt.Sprint(statusSeen)
+		if len(statusSeen) > 1 || (len(statusSeen) == 1 && (err == nil || statusSeen[0] == 101)) {
+			c.Fail("callbacks/on-status-error", fmt.Sprintf("OnStatusError called %v; Dial returned %v", statusSeen, err), det)
+			return false
+		}
+		if len(statusSeen) == 1 && len(hdrSeen) > 0 {
+			c.Fail("callbacks/on-header-after-status-error", "OnHeader called for a response whose status was refused", det)
+			return false
+		}
+		var extra [][2]string
+		for _, h := range resp.Headers {
+			if h.Raw == "" && !technical[strings.ToLower(h.Name)] {
+				extra = append(extra, [2]string{h.Name, strings.Trim(h.Value, " \t")})
+			}
+		}
+		for i, kv := range hdrSeen {
+			if i >= len(extra) || !strings.EqualFold(kv[0], extra[i][0]) || kv[1] != extra[i][1] {
+				c.Fail("callbacks/on-header-args", fmt.Sprintf("OnHeader call %d got %q: %q; the non-technical headers of the response are %v", i, kv[0], kv[1], extra), det)
+				return false
+			}
+		}
+		if err == nil && len(hdrSeen) != len(extra) {
+			c.Fail("callbacks/on-header-count", fmt.Sprintf("OnHeader called %d times on a successful handshake whose response has %d non-technical headers", len(hdrSeen), len(extra)), det)
+			return false
+		}
+		if cfg.Callbacks == 2 && len(hdrSeen) > 0 {
+			if len(hdrSeen) > 1 {
+				c.Fail("callbacks/veto-not-final", fmt.Sprintf("OnHeader was called %d more times after it returned an error", len(hdrSeen)-1), det)
+				return false
+			}
+			if err != errVeto {
+				c.Fail("callbacks/veto-ignored", fmt.Sprintf("OnHeader returned an error but Dial returned %v", err), det)
+				return false
+			}
+			if br != nil {
+				c.Fail("failure-returns-buffer", "a non-nil buffer was returned together with an error", det)
+				return false
+			}
+			c.Classf("veto|%s", v.ClassName())
+			return true
 		}
 	}
 	switch {
@@ -445,7 +510,7 @@ func variantKey(r *gen.Resp) string {
 func randCfg(c *mon.C, simple bool) DCfg {
 	cfg := DCfg{Protocols: protoLists[2], Exts: extLists[2], Header: "nil"}
 	if !simple {
-		cfg = DCfg{Protocols: protoLists[c.Rng.Intn(len(protoLists))], Exts: extLists[c.Rng.Intn(len(extLists))], Header: hdrKinds[c.Rng.Intn(len(hdrKinds))],
+		cfg = DCfg{Protocols: protoLists[c.Rng.Intn(len(protoLists))], Exts: extLists[c.Rng.Intn(len(extLists))], Header: hdrKinds[c.Rng.Intn(len(hdrKinds))], Callbacks: []int{0, 0, 1, 1, 2}[c.Rng.Intn(5)],
 			RBuf: bufSizes[c.Rng.Intn(len(bufSizes))], WBuf: bufSizes[c.Rng.Intn(len(bufSizes))]}
 		if c.Rng.Intn(3) == 0 {
 			cfg.Host = []string{"override.example.org", "other:1234"}[c.Rng.Intn(2)]
